@@ -26,6 +26,7 @@ import (
 	"github.com/ipld/go-ipld-prime"
 	"github.com/ipld/go-ipld-prime/codec/dagcbor"
 	cidlink "github.com/ipld/go-ipld-prime/linking/cid"
+	"github.com/rpcpool/yellowstone-faithful/accum"
 	"github.com/rpcpool/yellowstone-faithful/blocktimeindex"
 	"github.com/rpcpool/yellowstone-faithful/bucketteer"
 	"github.com/rpcpool/yellowstone-faithful/carreader"
@@ -88,6 +89,10 @@ var (
 	c12eCarNextInfo   = c12E("carreader.CarReader.NextInfo")
 	c12eCarInfoData   = c12E("carreader.ReadNodeInfoWithData")
 	c12eCarInfoNoData = c12E("carreader.ReadNodeInfoWithoutData")
+
+	c12eAccumRun = c12E("accum.ObjectAccumulator.Run")
+	c12eAccumTx  = c12E("accum.ObjectsToTransactionsAndMetadata")
+	c12eCarCount = c12E("main.carCountItemsByFirstByte")
 
 	c12eParseSection  = c12E("main.parseNodeFromSection")
 	c12eReadNodeAt    = c12E("main.readNodeFromReaderAtWithOffsetAndSize")
@@ -597,6 +602,40 @@ func (w *c12World) carFamilies() []*c12Fam {
 			b := x.Guard(c12eCarNextBytes, loop(func(cr *carreader.CarReader) error { _, _, _, err := cr.NextNodeBytes(); return err }))
 			c := x.Guard(c12eCarNextInfo, loop(func(cr *carreader.CarReader) error { _, _, err := cr.NextInfo(); return err }))
 			x.SeedOK(a && b && c, "reading every section of the CAR")
+			// the consumers the index builders put on top of the section reader
+			d := x.Guard(c12eAccumRun, func() error {
+				cr, err := carreader.New(mk())
+				if err != nil {
+					return err
+				}
+				oa := accum.NewObjectAccumulator(cr, iplddecoders.KindBlock, func(*accum.ObjectWithMetadata, []accum.ObjectWithMetadata) error { return nil })
+				return oa.Run(context.Background())
+			})
+			e := x.Guard(c12eAccumTx, func() error {
+				cr, err := carreader.New(mk())
+				if err != nil {
+					return err
+				}
+				var objs []accum.ObjectWithMetadata
+				for n := 0; n <= len(in)+2; n++ {
+					c, l, data, err := cr.NextNodeBytes()
+					if err != nil {
+						break
+					}
+					objs = append(objs, accum.ObjectWithMetadata{Cid: c, SectionLength: l, ObjectData: data})
+				}
+				_, err = accum.ObjectsToTransactionsAndMetadata(&ipldbindcode.Block{Slot: 1}, objs)
+				return err
+			})
+			f := x.Guard(c12eCarCount, func() error {
+				p := filepath.Join(x.scratch, "count.car")
+				if err := os.WriteFile(p, in, 0o644); err != nil {
+					panic(err)
+				}
+				_, _, err := carCountItemsByFirstByte(p)
+				return err
+			})
+			x.SeedOK(d && e && f, "accumulating / counting the sections of the CAR")
 		}
 		// the index-directed read path of the server: (offset, size) of every object, from the generator
 		all := true
